@@ -232,8 +232,10 @@ pub(super) fn train_check(batch: usize, n_in: usize, n_out: usize, iters: usize,
     let n = (rows * n_out) as Float;
     let mut it = 0;
     while it < iters {
-        let xv = sym_vec(rows * n_in, sym_val);
-        let tv = sym_vec(rows * n_out, sym_val);
+        // phase 3 = phase 1 with a CONCRETE first batch (keeps the SAT problem of the later iterations small)
+        let concrete = phase == 3 && it == 0;
+        let xv = if concrete { vec![2.0; rows * n_in] } else { sym_vec(rows * n_in, sym_val) };
+        let tv = if concrete { vec![1.0; rows * n_out] } else { sym_vec(rows * n_out, sym_val) };
         let y = model.forward(mk(&[batch, n_in], xv.clone()));
         // oracle forward, loss, gradients
         let mut yo: Vec<Float> = Vec::with_capacity(rows * n_out);
@@ -263,7 +265,7 @@ pub(super) fn train_check(batch: usize, n_in: usize, n_out: usize, iters: usize,
             q += 1;
         }
         assert!(loss == lo, "C14/C15 the iteration returns the loss (sum of the cost array) of the current parameters on the current batch");
-        if phase == 1 {
+        if phase == 1 || phase == 3 {
             // C15 only: the parameters hold the gradients of this loss; no update
             it += 1;
             continue;
@@ -296,7 +298,7 @@ pub(super) fn train_check(batch: usize, n_in: usize, n_out: usize, iters: usize,
     }
     drop(model);
     let ps = layer.parameters();
-    if phase == 1 {
+    if phase == 1 || phase == 3 {
         assert!(grad_of(ps[0]).is_some() && grad_of(ps[1]).is_some(), "C15 model backward differentiates the cost down to the parameters");
         return;
     }
